@@ -2123,8 +2123,15 @@ getattr_disallow(trait_object *trait, has_traits_object *obj, PyObject *name)
 static PyObject *
 getattr_constant(trait_object *trait, has_traits_object *obj, PyObject *name)
 {
-    Py_INCREF(trait->default_value);
-    return trait->default_value;
+    PyObject *result = trait->default_value;
+
+    /* A constant trait whose value has never been set: */
+    if (result == NULL) {
+        result = Py_None;
+    }
+
+    Py_INCREF(result);
+    return result;
 }
 
 /*-----------------------------------------------------------------------------
